@@ -2929,25 +2929,25 @@ theorem final_orig (o : Obj) (h : Bytes) (res : LayoutRes) (hl : layoutOf o h = 
 namespace OStream
 
 /-- the put position is inside the content -/
-def WF (s : OStream) : Prop := s.pos ≤ s.content.length
+def LayWF (s : OStream) : Prop := s.pos ≤ s.content.length
 
-theorem write_fail (s : OStream) (bs : Bytes) (h : (s.write bs).fail = false) : s.fail = false := by
+theorem lay_write_fail (s : OStream) (bs : Bytes) (h : (s.write bs).fail = false) : s.fail = false := by
   unfold write at h
   cases hf : s.fail with
   | false => rfl
   | true => rw [hf] at h; simp [hf] at h
 
-theorem write_facts (s : OStream) (bs : Bytes) (hw : s.WF) (h : (s.write bs).fail = false) :
-    (s.write bs).WF ∧ s.content.length ≤ (s.write bs).content.length ∧
+theorem lay_write_facts (s : OStream) (bs : Bytes) (hw : s.LayWF) (h : (s.write bs).fail = false) :
+    (s.write bs).LayWF ∧ s.content.length ≤ (s.write bs).content.length ∧
     s.pos + bs.length ≤ (s.write bs).content.length := by
-  have hf := write_fail s bs h
+  have hf := lay_write_fail s bs h
   have key : ∀ room : Nat, room = bs.length →
       let acc := bs.take room
       let c := if s.pos + acc.length ≤ s.content.length then wr s.content s.pos acc
                else s.content.take s.pos ++ acc
       s.pos + acc.length ≤ c.length ∧ s.content.length ≤ c.length ∧ s.pos + bs.length ≤ c.length := by
     intro room hre
-    unfold WF at hw
+    unfold LayWF at hw
     have hacc : (bs.take room).length = bs.length := by rw [hre]; simp
     simp only
     by_cases hc : s.pos + (bs.take room).length ≤ s.content.length
@@ -2957,7 +2957,7 @@ theorem write_facts (s : OStream) (bs : Bytes) (hw : s.WF) (h : (s.write bs).fai
       simp only [List.length_append, List.length_take] at hacc hc ⊢
       omega
   unfold write at h ⊢
-  unfold WF
+  unfold LayWF
   simp only [hf, Bool.false_eq_true, if_false, decide_eq_false_iff_not, Nat.not_lt] at h ⊢
   cases hb : s.budget with
   | none => exact key _ rfl
@@ -2966,10 +2966,10 @@ theorem write_facts (s : OStream) (bs : Bytes) (hw : s.WF) (h : (s.write bs).fai
     simp only at h ⊢
     exact key _ (by omega)
 
-theorem seekp_facts (s : OStream) (p : Int) (h : (s.seekp p).fail = false) :
-    s.fail = false ∧ (s.seekp p).WF ∧ (s.seekp p).content = s.content ∧ 0 ≤ p ∧ (s.seekp p).pos = p.toNat := by
+theorem lay_seekp_facts (s : OStream) (p : Int) (h : (s.seekp p).fail = false) :
+    s.fail = false ∧ (s.seekp p).LayWF ∧ (s.seekp p).content = s.content ∧ 0 ≤ p ∧ (s.seekp p).pos = p.toNat := by
   unfold seekp at h ⊢
-  unfold WF
+  unfold LayWF
   cases hf : s.fail with
   | true => rw [hf] at h; simp [hf] at h
   | false =>
@@ -2979,24 +2979,24 @@ theorem seekp_facts (s : OStream) (p : Int) (h : (s.seekp p).fail = false) :
     · rw [if_neg (by simp), if_neg hc]
       exact ⟨rfl, by simp only; omega, rfl, by omega, rfl⟩
 
-theorem adjust_facts (s : OStream) (off : Int) (h : (s.adjust off).fail = false) :
-    s.fail = false ∧ (s.adjust off).WF ∧ s.content.length ≤ (s.adjust off).content.length ∧
+theorem lay_adjust_facts (s : OStream) (off : Int) (h : (s.adjust off).fail = false) :
+    s.fail = false ∧ (s.adjust off).LayWF ∧ s.content.length ≤ (s.adjust off).content.length ∧
     0 ≤ off ∧ (s.adjust off).pos = off.toNat := by
   unfold adjust at h ⊢
   simp only at h ⊢
-  obtain ⟨h1, h2, h3, h4, h5⟩ := seekp_facts _ off h
+  obtain ⟨h1, h2, h3, h4, h5⟩ := lay_seekp_facts _ off h
   have hf : s.fail = false := by
     split at h1
-    · have := write_fail _ _ h1
+    · have := lay_write_fail _ _ h1
       unfold seekEnd at this; split at this <;> simp_all
     · unfold seekEnd at h1; split at h1 <;> simp_all
   refine ⟨hf, h2, ?_, h4, h5⟩
   rw [h3]
-  have hse : s.seekEnd.WF := by unfold seekEnd WF; simp [hf]
+  have hse : s.seekEnd.LayWF := by unfold seekEnd LayWF; simp [hf]
   have hsl : s.seekEnd.content = s.content := by unfold seekEnd; simp [hf]
   split
   · rename_i hlt
-    have := (write_facts s.seekEnd _ hse (by split at h1; exact h1; exact absurd hlt ‹_›)).2.1
+    have := (lay_write_facts s.seekEnd _ hse (by split at h1; exact h1; exact absurd hlt ‹_›)).2.1
     rw [hsl] at this; exact this
   · rw [hsl]; exact Nat.le_refl _
 
@@ -3061,8 +3061,8 @@ theorem save_stream (o : Obj) (os : OStream) (r : SaveRes) (h : save o os = .ok 
 /-- one `section_impl::save`: nothing before fails, the stream only grows, the section header
     record — and the data, if written — end inside the stream -/
 theorem saveSection_facts (c : Cls) (enc : Enc) (shoff : BitVec 64) (shentsize : BitVec 16) (os : OStream)
-    (b : SecBuf) (hw : os.WF) (h : (saveSection c enc shoff shentsize os b).fail = false) :
-    os.fail = false ∧ (saveSection c enc shoff shentsize os b).WF ∧
+    (b : SecBuf) (hw : os.LayWF) (h : (saveSection c enc shoff shentsize os b).fail = false) :
+    os.fail = false ∧ (saveSection c enc shoff shentsize os b).LayWF ∧
     os.content.length ≤ (saveSection c enc shoff shentsize os b).content.length ∧
     0 ≤ shoff.toInt + (Int.ofNat shentsize.toNat) * (Int.ofNat b.index) ∧
     (shoff.toInt + (Int.ofNat shentsize.toNat) * (Int.ofNat b.index)).toNat + (encodeShdr c enc b).length ≤
@@ -3075,20 +3075,20 @@ theorem saveSection_facts (c : Cls) (enc : Enc) (shoff : BitVec 64) (shentsize :
   generalize hhp : shoff.toInt + (Int.ofNat shentsize.toNat) * (Int.ofNat b.index) = hp at *
   by_cases hc : (b.stype != BitVec.ofNat 32 SHT_NOBITS && b.stype != BitVec.ofNat 32 SHT_NULL && b.size != 0 && b.data.isSome) = true
   · simp only [hc, if_true] at h ⊢
-    have h4 := OStream.write_fail _ _ h
-    obtain ⟨h3, w3, l3, p3, q3⟩ := OStream.adjust_facts _ _ h4
-    have h2 := OStream.write_fail _ _ h3
-    obtain ⟨h1, w1, l1, p1, q1⟩ := OStream.adjust_facts _ _ h2
-    obtain ⟨w2, l2, e2⟩ := OStream.write_facts _ _ w1 h3
-    obtain ⟨w4, l4, e4⟩ := OStream.write_facts _ _ w3 h
+    have h4 := OStream.lay_write_fail _ _ h
+    obtain ⟨h3, w3, l3, p3, q3⟩ := OStream.lay_adjust_facts _ _ h4
+    have h2 := OStream.lay_write_fail _ _ h3
+    obtain ⟨h1, w1, l1, p1, q1⟩ := OStream.lay_adjust_facts _ _ h2
+    obtain ⟨w2, l2, e2⟩ := OStream.lay_write_facts _ _ w1 h3
+    obtain ⟨w4, l4, e4⟩ := OStream.lay_write_facts _ _ w3 h
     rw [q1] at e2; rw [q3] at e4
     exact ⟨h1, w4, by omega, p1, by omega, fun _ _ => e4⟩
   · have hc' : (b.stype != BitVec.ofNat 32 SHT_NOBITS && b.stype != BitVec.ofNat 32 SHT_NULL && b.size != 0 && b.data.isSome) = false := by
       simpa using hc
     simp only [hc', Bool.false_eq_true, if_false] at h ⊢
-    have h2 := OStream.write_fail _ _ h
-    obtain ⟨h1, w1, l1, p1, q1⟩ := OStream.adjust_facts _ _ h2
-    obtain ⟨w2, l2, e2⟩ := OStream.write_facts _ _ w1 h
+    have h2 := OStream.lay_write_fail _ _ h
+    obtain ⟨h1, w1, l1, p1, q1⟩ := OStream.lay_adjust_facts _ _ h2
+    obtain ⟨w2, l2, e2⟩ := OStream.lay_write_facts _ _ w1 h
     rw [q1] at e2
     refine ⟨h1, w2, by omega, p1, e2, ?_⟩
     intro ho hd
@@ -3101,8 +3101,8 @@ theorem saveSection_facts (c : Cls) (enc : Enc) (shoff : BitVec 64) (shentsize :
     · rw [hd] at h'; exact nomatch h'
 
 theorem saveSections_facts (c : Cls) (enc : Enc) (shoff : BitVec 64) (shentsize : BitVec 16) (l : List SecBuf)
-    (os : OStream) (hw : os.WF) (h : (l.foldl (saveSection c enc shoff shentsize) os).fail = false) :
-    os.fail = false ∧ (l.foldl (saveSection c enc shoff shentsize) os).WF ∧
+    (os : OStream) (hw : os.LayWF) (h : (l.foldl (saveSection c enc shoff shentsize) os).fail = false) :
+    os.fail = false ∧ (l.foldl (saveSection c enc shoff shentsize) os).LayWF ∧
     os.content.length ≤ (l.foldl (saveSection c enc shoff shentsize) os).content.length ∧
     ∀ b ∈ l,
       0 ≤ shoff.toInt + (Int.ofNat shentsize.toNat) * (Int.ofNat b.index) ∧
@@ -3143,18 +3143,18 @@ theorem saveSections_facts (c : Cls) (enc : Enc) (shoff : BitVec 64) (shentsize 
       rw [this rest _ hfa'] at h; exact nomatch h
 
 theorem saveSegment_facts (c : Cls) (enc : Enc) (phoff : BitVec 64) (phentsize : BitVec 16) (os : OStream)
-    (g : Seg) (_hw : os.WF) (h : (saveSegment c enc phoff phentsize os g).fail = false) :
-    os.fail = false ∧ (saveSegment c enc phoff phentsize os g).WF ∧
+    (g : Seg) (_hw : os.LayWF) (h : (saveSegment c enc phoff phentsize os g).fail = false) :
+    os.fail = false ∧ (saveSegment c enc phoff phentsize os g).LayWF ∧
     os.content.length ≤ (saveSegment c enc phoff phentsize os g).content.length := by
   unfold saveSegment at h ⊢
   simp only at h ⊢
-  have h2 := OStream.write_fail _ _ h
-  obtain ⟨h1, w1, l1, -, -⟩ := OStream.adjust_facts _ _ h2
-  obtain ⟨w2, l2, -⟩ := OStream.write_facts _ _ w1 h
+  have h2 := OStream.lay_write_fail _ _ h
+  obtain ⟨h1, w1, l1, -, -⟩ := OStream.lay_adjust_facts _ _ h2
+  obtain ⟨w2, l2, -⟩ := OStream.lay_write_facts _ _ w1 h
   exact ⟨h1, w2, by omega⟩
 
 theorem saveSegments_facts (c : Cls) (enc : Enc) (phoff : BitVec 64) (phentsize : BitVec 16) (l : List Seg)
-    (os : OStream) (hw : os.WF) (h : (l.foldl (saveSegment c enc phoff phentsize) os).fail = false) :
+    (os : OStream) (hw : os.LayWF) (h : (l.foldl (saveSegment c enc phoff phentsize) os).fail = false) :
     os.fail = false ∧ os.content.length ≤ (l.foldl (saveSegment c enc phoff phentsize) os).content.length := by
   induction l generalizing os with
   | nil => exact ⟨h, Nat.le_refl _⟩
